@@ -575,7 +575,29 @@ def check_C12(chk, tier):
                   key_extra=lambda c: {"storage": str(c[2]), "trans": str(c[16]), "hist": str(c[15]), "struct_singular": str(int(C.structural_rank(c[0], c[0], int(c[1], 16)) < c[0]))})
 
 
-REGISTRY = {"C12": check_C12, "C11": check_C11, "C09": check_C09, "C19": check_C19, "C20": check_C20, "C07": check_C07, "C14": check_C14, "C10": check_C10, "C08": check_C08, "C18": check_C18, "C05": check_C05, "C06": check_C06, "C01": check_C01, "C02": check_C02, "C03": check_C03, "C04": check_C04}
+# ------------------------------------------------------------------------------------------------ C13 backward error
+def check_C13(chk, tier):
+    chk.assumptions += COMMON_ASSUME + ["?gsrfs is driven directly with factors of a generic concrete matrix and an arbitrary symbolic X and B, so the residual, the safeguarded ratio, the correction solve and the stopping rule all execute on symbols; complex |.| is |re|+|im| as in the library",
+                                        "backward error formula as documented in the routine: |r_i|/d_i if d_i > safe2, (|r_i|+safe1)/d_i if 0 < d_i <= safe2, d_i = (|op(A)||x|+|b|)_i", "NOREFINE path (ferr = berr = 1 exactly, X unrefined) is checked through the expert driver cases"]
+    q = tier == "quick"
+    for prec in (["d", "z"] if q else list("dszc")):
+        cplx = prec in "zc"; cs = []
+        if q:
+            for tc in (0, 1, 2): cs.append((1, hex(1)) + tuple(T["t122"]) + (tc, 1, 0, 0, 0))
+            if not cplx:
+                cs.append((2, hex(0b1101)) + tuple(T["t122"]) + (0, 1, 0, 0, 0)); cs.append((2, hex(15)) + tuple(T["t212"]) + (1, 3, 0, 2, 1)); cs.append((2, hex(0b1101)) + tuple(T["t212"]) + (0, 2, 1, 0, 1)); cs.append((3, hex(511)) + tuple(T["t212"]) + (1, 3, 0, 1, 1))
+        else:
+            for n, pat in ((1, 1), (2, 15), (2, 0b1101), (3, 511)):
+                for tc in (0, 1, 2):
+                    cs.append((n, hex(pat)) + tuple(T["t122"]) + (tc, 1, 0, 0, 0))
+                    if n >= 2: cs.append((n, hex(pat)) + tuple(T["t212"]) + (tc, 3, 0, 2, 1)); cs.append((n, hex(pat)) + tuple(T["t212"]) + (tc, 2, 1, 0, 1))
+        run_phase(chk, "gsrfs-direct/" + prec, H + "h_gsrfs.c", list(dict.fromkeys(cs)), ["C13."], prec=prec, budget_s=220 if q else 1500, validate_samples=0,
+                  bounds="n<=3 generic concrete A, all Trans, nrhs<=3 with ldx != ldb, symbolic arbitrary X (all columns or one column) and B", qtimeout_ms=5000 if q else 60000, env=CPLX_ENV if cplx else None)
+    xc = [xcase(n, pat, storage=st, trans=tr, equil=eq, refine=0, symcols=sc) for n, pat, sc in ((1, 1, -1), (2, 15, 2)) for st in (0, 1) for tr in (1, 2) for eq in (0, 1)]
+    run_phase(chk, "norefine via gssvx/d", H + "h_gssvx.c", xc, ["C13."], prec="d", budget_s=100, validate_samples=0, bounds="IterRefine = NOREFINE through the expert driver")
+
+
+REGISTRY = {"C13": check_C13, "C12": check_C12, "C11": check_C11, "C09": check_C09, "C19": check_C19, "C20": check_C20, "C07": check_C07, "C14": check_C14, "C10": check_C10, "C08": check_C08, "C18": check_C18, "C05": check_C05, "C06": check_C06, "C01": check_C01, "C02": check_C02, "C03": check_C03, "C04": check_C04}
 
 
 def run(pid, tier):
